@@ -84,8 +84,33 @@ def compare_outcomes(real, model, expect_ty=None):
     return None
 
 
+def table_obligations(ctx):
+    """name the obligation of Proofs/InterpTables.lean that an edited table / bound re-opened: the build log's error
+    positions in that file are mapped to the enclosing `theorem` (the generic `theorem:*` obligations only say that the
+    Props module does not build)"""
+    import os
+    from harness import common
+    path = os.path.join(common.LEAN, 'PytezosModel', 'Proofs', 'InterpTables.lean')
+    src = open(path).read().split('\n')
+    names = [(i + 1, m.group(1)) for i, ln in enumerate(src) for m in [re.match(r'theorem\s+(\S+)', ln)] if m]
+    log = '\n'.join(d for n, ok, d in ctx.obligations if n.startswith('build:') and not ok)
+    bad = {}
+    for m in re.finditer(r'InterpTables\.lean:(\d+):\d+: (.*)', log):
+        line = int(m.group(1))
+        owner = [nm for ln, nm in names if ln <= line]
+        if owner:
+            bad.setdefault(owner[-1], m.group(2)[:200])
+    for _, nm in names:
+        ctx.obligation(f'source-table:{nm}', nm not in bad, bad.get(nm, 'closed by decide / case analysis over Generated.C01'))
+    # the re-opened ones first: they are what the report should name
+    ctx.obligations.sort(key=lambda o: not (o[0].startswith('source-table:') and not o[1]))
+    return sorted(bad)
+
+
 def run(ctx, prop=PROP):
-    ctx.prepare_lean(extract.generate(prop))
+    # C02 runs on the same model: the tables `Impl` reads are regenerated from the source for both properties
+    ctx.prepare_lean(extract.generate('C01'))
+    ctx.extra['reopened_table_obligations'] = table_obligations(ctx)
     n_prog = 1500 if ctx.tier == 'quick' else 40000
     g = gen_interp.Gen(ctx.rng)
     ctx.extra['rule'] = ('well-typed programs grown type-directedly over the modelled core (see harness/gen_interp.py); '
@@ -112,6 +137,7 @@ def run(ctx, prop=PROP):
         lines.append('spec ' + line)
         lines.append('specg ' + line)
         lines.append('type ' + line)
+        lines.append('stype ' + line)
     hash_cases = hash_stream(ctx.rng, ctx.tier) if prop == 'C01' else []
     n_prog_lines = len(lines)
     lines += [f'hash {algo} {msg.hex() or "-"}' for algo, msg in hash_cases]
@@ -127,6 +153,7 @@ def run(ctx, prop=PROP):
     ctx.extra['instruction_mix'] = dict(sorted(g.used.items()))
     ctx.extra['boundary_shapes'] = dict(sorted(g.shapes.items()))
     failing = []
+    K = 5      # protocol lines per program: impl, spec, specg, type, stype
     for i, (code, st, env) in enumerate(progs):
         text = json.dumps(code)
         control = any(k in text for k in ('"IF', '"LOOP', '"ITER', '"MAP', '"DIP', '"EXEC'))
@@ -142,9 +169,17 @@ def run(ctx, prop=PROP):
         if model is None:
             impl_m = spec_m = specg_m = None
         else:
-            impl_m, spec_m, specg_m = (parse_model(model[4 * i + k]) for k in range(3))
+            impl_m, spec_m, specg_m = (parse_model(model[K * i + k]) for k in range(3))
             # the generator's own type tracking against the Lean type checker (validates both)
-            tline = model[4 * i + 3]
+            tline = model[K * i + 3]
+            # the static statement (C01.strict_run_eq_reference) on real inputs: how many generated programs satisfy its
+            # hypotheses (`typeInstr true`, literals), and — the theorem — none of them leaves the guard
+            sline = model[K * i + 4]
+            ctx.count('strict-typing', {'strict': 'strictly-typed', 'lax': 'typed-not-strictly'}.get(sline, sline))
+            if sline == 'strict':
+                ctx.count('strictly-typed-with', 'MAP' if '"MAP"' in text else ('lambda' if ('"LAMBDA"' in text or '"lambda"' in text) else 'neither'))
+                if specg_m == ('err', 'offguard'):
+                    ctx.mismatch('strict-guard', {'code': code, 'env': env}, 'inside the guard (strictly typed)', 'offguard')
             if st is None:      # edge stream: arguments outside the typing rule; only the mirror is compared
                 ctx.count('edge-stream', 'ill-typed' if tline == 'ill-typed' else 'typed')
                 if tline != 'ill-typed':
